@@ -186,7 +186,9 @@ CLAIMED = {
     },
     "C13": {
         "text": "Machine-checked theorems over all kernel answers: remove_all refuses '.', '..' and names with '/' before touching anything; "
-                "every open forbids following, every unlink names one component relative to a descriptor of the walk; descriptors balanced. "
+                "every open forbids following, every unlink names one component relative to a descriptor of the walk; descriptors balanced; whatever "
+                "the directory listings say, every unlinkat is on (dirfd, name) itself or on a descriptor obtained by descending from it without "
+                "following links, with a '/'-free name other than '.'/'..', and no other tree-changing call is issued. "
                 "Runtime: whole-sandbox snapshots on deep/wide subtrees with links to siblings/parents/outside x path spellings (difference must "
                 "be exactly the named entry and what is below it), 2-4 racing callers per path, and links swapped in at every boundary of a running remove_all.",
         "note": COMMON_NOTE + "Partial: the functional post-condition on the tree and the convergence of concurrent callers are decided by the "
@@ -208,7 +210,10 @@ CLAIMED = {
     "C12": {
         "text": "Machine-checked theorems over all kernel answers: mode bits outside 0o1777 are refused before any call; every mkdirat/openat "
                 "names one '/'-free component relative to a descriptor, opens forbid following except the verified procfs re-open; descriptors "
-                "balanced; no unknown panic. Runtime: whole-sandbox snapshots -- on success the handle equals the kernel's raw in-root resolution "
+                "balanced on both backends (the emulated partial lookup with its symlink stack of Rc handles included); no unknown panic; the "
+                "directories are created as ONE chain -- mkdir_all is checks, partial lookup, re-open, then a loop in which every mkdirat is on the "
+                "directory the chain has reached and the only open is openat(that directory, that very name, O_NOFOLLOW|O_DIRECTORY), whose result "
+                "is where the chain continues; nothing else changes the tree. Runtime: whole-sandbox snapshots -- on success the handle equals the kernel's raw in-root resolution "
                 "of the path in the resulting tree, the new entries form exactly one chain of directories with mode&~umask (|setgid), nothing "
                 "else changed; on failure only one chain of directories was added; racing callers on equal/overlapping paths all succeed "
                 "with handles to the directories now at their paths.",
